@@ -50,7 +50,7 @@ def run_scenario(chk, sc, cfgseed, how, field, axes, scale, ext=6, ext_cut=False
     from amr_kitchen import PlotfileCooker
     from amr_kitchen.pestle import volume_integral
     rng = random.Random(cfgseed)
-    cfg_ = gamma.Config.draw(rng, ndims=3, payload="tame")
+    cfg_ = gamma.Config.draw(rng, ndims=3, payload="tame", numfmt="g6" if cfgseed % 4 == 0 else "repr")
     lat = lattice.Lattice(sc["mesh"], sc["n1"], sc["n2"], axes=axes, ext0=ext * scale, ext_cut=ext_cut, scale=scale)
     special = {2: lambda lv, shape: np.ones(shape),
                3: lambda lv, shape: np.random.default_rng(cfgseed + lv).uniform(0.0, 1.0, shape)}
